@@ -796,3 +796,11 @@ def r05_4(ctx):
                       "a self/cyclic dependency would then abort the whole run before the acyclic files are built" % bad[0][1], site=ctx.site(b, bad[0][0]))
     else:
         ctx.ok("a found dependency is only ever recorded (errors: path resolution only)", site=ctx.site(b, min(reg)))
+
+
+@rule("C02", "R02.9", floor=4)
+def r02_9(ctx):
+    """one file, one identity: the scheduler's `files` set and the DepManager maps are keyed by AbsPath, so a dependency named through
+    two spellings (`sub/../x`, a symlinked directory) must canonicalise to one key — otherwise it is processed twice and a depender can
+    read it while the second run has it truncated (= C03 R03.6: AbsPath is built only from canonicalize())"""
+    r03_6(ctx)
